@@ -5,9 +5,9 @@ use crate::hostile::HostileOp;
 use crate::world::*;
 
 /// Families are switched on through `cfg.guards`: h_rumor, h_rewrap, h_commit, h_proposal,
-/// h_garbage, h_outer, h_welcome.
+/// h_garbage, h_outer, h_welcome, h_keypackage.
 pub fn hook(gn: &mut Gen, w: &mut World) -> Option<Step> {
-    let fams: Vec<&str> = ["h_rumor", "h_rewrap", "h_commit", "h_proposal", "h_garbage", "h_outer", "h_welcome"].into_iter().filter(|f| gn.cfg.guards.contains(*f)).collect();
+    let fams: Vec<&str> = ["h_rumor", "h_rewrap", "h_commit", "h_proposal", "h_garbage", "h_outer", "h_welcome", "h_keypackage"].into_iter().filter(|f| gn.cfg.guards.contains(*f)).collect();
     if fams.is_empty() || w.groups.is_empty() {
         return None;
     }
@@ -60,6 +60,14 @@ pub fn hook(gn: &mut Gen, w: &mut World) -> Option<Step> {
             }
             HostileOp::GarbageInner { g, mode: gn.rng().below(5) as u8, ev: any_ev, seed }
         }
+        "h_keypackage" => {
+            let owners: Vec<usize> = (0..n_nodes).filter(|i| !w.nodes[*i].key_packages.is_empty()).collect();
+            if owners.is_empty() {
+                return None;
+            }
+            let owner = owners[gn.rng().below(owners.len() as u64) as usize];
+            HostileOp::HostileKeyPackage { owner, mode: gn.rng().below(12) as u8, seed, g, use_in: gn.rng().below(2) as u8 }
+        }
         "h_outer" => HostileOp::MutatedOuter { ev: any_ev?, mode: gn.rng().below(11) as u8, seed },
         _ => {
             if w.nodes[victim].key_packages.is_empty() || victim == node {
@@ -69,7 +77,7 @@ pub fn hook(gn: &mut Gen, w: &mut World) -> Option<Step> {
                 let i = gn.rng().below(w.welcomes.len() as u64) as usize;
                 HostileOp::RewrappedWelcome { w: w.welcomes[i].origin, seed }
             } else {
-                HostileOp::HostileWelcome { victim, mode: gn.rng().below(5) as u8, g, seed }
+                HostileOp::HostileWelcome { victim, mode: gn.rng().below(6) as u8, g, seed }
             }
         }
     };
